@@ -21,6 +21,7 @@ import (
 	"errors"
 	"fmt"
 	"io"
+	"runtime/debug"
 	"sync"
 
 	"github.com/siglens/siglens/pkg/config"
@@ -485,6 +486,15 @@ loop:
 		waitGroup.Add(1)
 		go func(i int) {
 			defer waitGroup.Done()
+			defer func() {
+				// A panic on this goroutine would end the whole server process; turn it into
+				// a failure of this query instead.
+				if r := recover(); r != nil {
+					finalErr = fmt.Errorf("DP.fetchFromAnyStream: panic while fetching from stream %d: %v", i, r)
+					log.Errorf("%v\n%s", finalErr, debug.Stack())
+					dp.streamDataChan <- streamResponse{streamId: i, iqr: nil}
+				}
+			}()
 
 			iqr, err := dp.streams[i].Fetch()
 			if err != nil && err != io.EOF {
@@ -542,6 +552,13 @@ func (dp *DataProcessor) fetchFromAllStreamsWithData() ([]*iqr.IQR, []int, error
 		waitGroup.Add(1)
 		go func(i int, stream *CachedStream) {
 			defer waitGroup.Done()
+			defer func() {
+				// see fetchFromAnyStream: a panic must fail the query, not the process
+				if r := recover(); r != nil {
+					finalErr = fmt.Errorf("DP.fetchFromAllStreamsWithData: panic while fetching from stream %d: %v", i, r)
+					log.Errorf("%v\n%s", finalErr, debug.Stack())
+				}
+			}()
 			iqr, err := stream.Fetch()
 			if err != nil && err != io.EOF {
 				finalErr = utils.WrapErrorf(err, "DP.fetchFromAllStreamsWithData: failed to fetch from stream %d: %v", i, err)
